@@ -14,11 +14,19 @@ What is NOT proved here (and why):
    finding because the tree has no yield point between that load and the CAS to replay it).
    The positive theorem is therefore stated under the usage contract of `oracle.newCommitTs`
    (Begin calls serialized, every index above lastIndex): `C32_never_passes_serialized`.
- * BeginMany / DoneMany and the sliding window (`ensureWindow`, `rebuildWindowLocked`) are not in
-   the micro-step model; they are covered by the sequential correspondence only.  The window copy
-   race (counts added to the old window during a rebuild) is not modelled.
+ * The sliding window (`ensureWindow`, `rebuildWindowLocked`) is modelled for WHOLE calls only
+   (Conc/WatermarkWindow.lean): `C32_window_refines` proves that with the extracted window rules
+   any sequence of Begin / Done / BeginMany / DoneMany calls keeps, across every rebuild, the
+   pending count of every index at or above the mark equal to #Begin − #Done and moves the mark
+   exactly as the window-free semantics does.  It is `…_partial` in two respects, both stated at
+   the theorem: the window-free whole-call semantics `aCall` is tied to the micro-step model only
+   by the driver's run-time comparison, not by a theorem; and a rebuild that runs concurrently
+   with an `Add` on the old window (the window-copy race) is not modelled at all.
+   BeginMany in the micro-step model = `count i …` followed by `publish last` (no contract theorem:
+   the oracle only calls Begin).
 -/
 import NoKVModel.Conc.WatermarkContract
+import NoKVModel.Conc.WatermarkWindowLemmas
 
 /-
 Which theorem needs which fact value:
@@ -65,6 +73,51 @@ theorem C32_wait (c : WMCfg) (_hc : True) (contract : Bool) (s : St)
     (hr : Reachable (sys c contract) s) (tid : Nat) (t : Thr) (ht : s.thr tid = some t)
     (hret : t.returned = true) : t.kind.idx ≤ s.doneUntil :=
   ((W.reachable c contract s hr) tid t ht).returnedLe hret
+
+/-! ### the sliding window (whole calls) -/
+
+open NoKV.Conc.WMW in
+/-- **Window refinement (sequential), partial.**  For the good window rules (growth counts the slot
+of the index itself, the copy scans the whole old window, the new base is doneUntil) and every value
+of the other facts: after ANY sequence of whole calls
+ * doneUntil and lastIndex are those of the window-free semantics `runA`;
+ * the window always starts at or below the mark;
+ * for every index j >= doneUntil the pending count the window holds (0 if j is outside the window)
+   is exactly (#`+1` on j) − (#`-1` on j): no rebuild loses or invents a count;
+and in the window-free semantics a call that ends in tryAdvance leaves the mark where it cannot
+move further (`C32_mark_settled`).
+Partial because: (1) `aCall` = "the micro-step model run to completion without interleaving" is
+compared at run time by the driver, not proved; (2) calls that interleave with a rebuild are outside
+this model. -/
+theorem C32_window_refines_partial (wc : WinCfg) (hc : wc.Good) (cs : List Call) :
+    (runW wc cs).doneUntil = (runA wc.wm cs).du ∧ (runW wc cs).lastIndex = (runA wc.wm cs).li ∧
+    (runW wc cs).base ≤ (runW wc cs).doneUntil ∧
+    (∀ j, (runW wc cs).doneUntil ≤ j →
+      cntOf (runW wc cs) j = ((runA wc.wm cs).nBegin j : Int) - ((runA wc.wm cs).nDone j : Int)) := by
+  have h := Rel.run hc cs
+  refine ⟨h.du.symm, h.li.symm, h.baseLe, ?_⟩
+  intro j hj
+  rw [← h.cnt j hj]
+  exact CountsOk.run wc.wm cs j
+
+open NoKV.Conc.WMW in
+/-- after a Begin (count-first order), a non-ignored Done, or a non-empty BeginMany the mark is
+settled: it is at lastIndex, or the next index is pending, or (holdsAtDone) the index at the mark is -/
+theorem C32_mark_settled (c : WMCfg) (hc : c.Good) (a : ASt) :
+    (∀ i, Settled c (aCall c a (.begin i))) ∧
+    (∀ i, ¬ (i = 0 ∧ c.tracksZero = false) → Settled c (aCall c a (.done i))) ∧
+    (∀ is l, is.getLast? = some l → Settled c (aCall c a (.beginMany is))) := by
+  have hcf : c.countsFirst = true := hc
+  refine ⟨?_, ?_, ?_⟩
+  · intro i
+    simp only [aCall, hcf, if_true]
+    exact aTry_settled c _
+  · intro i hi
+    simp only [aCall, aAddIndex, hi, if_false]
+    exact aTry_settled c _
+  · intro is l hl
+    simp only [aCall, hl, hcf, if_true]
+    exact aTry_settled c _
 
 /-! ### publish-then-count order (finding `watermark-publish-before-count`, fixed by 0630bbc) -/
 
@@ -125,6 +178,13 @@ example :
       ([Act.begin 0 1] ++ List.replicate 12 (Act.run 0) ++ [Act.done 1 1] ++ List.replicate 12 (Act.run 1) ++
        [Act.begin 2 1] ++ List.replicate 12 (Act.run 2) ++
        [Act.begin 3 2] ++ List.replicate 12 (Act.run 3) ++ [Act.done 4 2] ++ List.replicate 12 (Act.run 4))).doneUntil = 2 := by
+  decide
+
+/-- the window model in action: a pending index exactly one window length ahead survives the
+rebuild and holds the mark (the boundary a `needed := index - newBase` growth rule gets wrong) -/
+example :
+    let w := NoKV.Conc.WMW.runW NoKV.Conc.WMW.WinCfg.good [.beginMany [3, 65536]]
+    w.size = 131072 ∧ w.base = 0 ∧ NoKV.Conc.WMW.cntOf w 65536 = 1 ∧ NoKV.Conc.WMW.cntOf w 3 = 1 ∧ w.doneUntil = 2 := by
   decide
 
 end NoKV.Props.C32
